@@ -1,0 +1,17 @@
+//go:build verif
+
+package window
+
+// Accessors for the verification harness (/verif). Compiled only with -tags verif.
+
+// VerifCountingKey exposes (*CountingWindow).getKey.
+func VerifCountingKey(cw *CountingWindow, data any) string { return cw.getKey(data) }
+
+// VerifSessionKey exposes extractSessionCompositeKey.
+func VerifSessionKey(data any, keys []string) string { return extractSessionCompositeKey(data, keys) }
+
+// VerifGlobalKey exposes the key part of (*GlobalWindow).getKeyAndValues.
+func VerifGlobalKey(gw *GlobalWindow, data map[string]any) string {
+	k, _ := gw.getKeyAndValues(data)
+	return k
+}
